@@ -23,7 +23,7 @@
 *)
 EXTENDS Integers, Sequences, FiniteSets, TLC, Json, SequencesExt, FiniteSetsExt
 
-CONSTANTS N, NOrig, NLoc, MaxLevel, Typed, MaxSet
+CONSTANTS N, NOrig, NLoc, MaxLevel, Typed, MaxSet, NBlk
 
 Node  == 1..N
 Orig  == 1..NOrig
@@ -35,6 +35,13 @@ vars == <<parent, kids, loc, att, live, orig>>
 (* ---------- static attributes, inherited by copies through orig ---------- *)
 FlagsOf(n) == LET o == orig[n] IN (IF o % 2 = 1 THEN {"A"} ELSE {}) \cup (IF (o \div 2) % 2 = 1 THEN {"B"} ELSE {})
 TypeOf(n)  == IF orig[n] % 3 = 0 THEN "t0" ELSE IF orig[n] % 3 = 1 THEN "t1" ELSE "t2"
+
+\* typed mode (HexAssembly / HexBlock / Circle): original 1 is the assembly, 2..1+NBlk are blocks, the rest components
+Kind(n) == IF ~Typed THEN "gen" ELSE LET o == orig[n] IN IF o = 1 THEN "asm" ELSE IF o <= 1 + NBlk THEN "blk" ELSE "cmp"
+Fits(p, c) == ~Typed \/ (Kind(p) = "asm" /\ Kind(c) = "blk") \/ (Kind(p) = "blk" /\ Kind(c) = "cmp")
+HasGrid(n) == ~Typed \/ Kind(n) = "asm"      \* objects that own a spatialGrid
+Places(p)  == Typed /\ Kind(p) = "asm"        \* Assembly.add places the block and re-establishes the block order
+SortKey(n) == IF Kind(n) = "cmp" THEN orig[n] ELSE loc[n]   \* Component.__lt__ orders by bounding circle (grows with orig id)
 
 (* ---------- naive walks (the oracle for every traversal query) ---------- *)
 Rng(s) == {s[i] : i \in 1..Len(s)}
@@ -51,6 +58,9 @@ AncChain(n) == IF parent[n] = 0 THEN <<>> ELSE <<parent[n]>> \o AncChain(parent[
 AncSelf(n) == <<n>> \o AncChain(n)
 FirstOr0(s) == IF s = <<>> THEN 0 ELSE s[1]
 Leaves(n) == Filter(Deep(n), LAMBDA x : kids[x] = <<>>)
+RECURSIVE CompsOf(_)
+\* iterComponents: depth-first, a component yields itself
+CompsOf(n) == IF Kind(n) = "cmp" THEN <<n>> ELSE Flat([i \in 1..Len(kids[n]) |-> CompsOf(kids[n][i])])
 RootOf(n) == LET c == AncSelf(n) IN c[Len(c)]
 Subtree(n) == {n} \cup Rng(Deep(n))
 
@@ -68,7 +78,7 @@ CopiesDisjoint == \A n \in live : orig[n] \in Orig
 
 (* ---------- helpers for actions ---------- *)
 Detached(c) == c \in live /\ parent[c] = 0
-CanTake(p, c) == Detached(c) /\ c \notin Rng(AncSelf(p))
+CanTake(p, c) == Detached(c) /\ c \notin Rng(AncSelf(p)) /\ Fits(p, c)
 RemoveFrom(s, c) == SelectSeq(s, LAMBDA x : x # c)
 InsAt(s, k, c) == SubSeq(s, 1, k) \o <<c>> \o SubSeq(s, k + 1, Len(s))   \* python list.insert(k, c), 0 <= k <= len
 Positions(p, ks) == [n \in Node |-> IF n \in Rng(ks) THEN (CHOOSE i \in 1..Len(ks) : ks[i] = n) - 1 ELSE loc[n]]
@@ -77,11 +87,11 @@ Refuse(e, a) == UNCHANGED vars /\ err' = e /\ act' = a
 
 (* stable sort of a child list by location index (list.sort with ArmiObject.__lt__) *)
 InsSorted(s, x) == LET i == CHOOSE i \in 0..Len(s) :
-                              /\ \A j \in 1..i : loc[s[j]] <= loc[x]
-                              /\ (i = Len(s) \/ loc[s[i + 1]] > loc[x])
+                              /\ \A j \in 1..i : SortKey(s[j]) <= SortKey(x)
+                              /\ (i = Len(s) \/ SortKey(s[i + 1]) > SortKey(x))
                    IN SubSeq(s, 1, i) \o <<x>> \o SubSeq(s, i + 1, Len(s))
 StableSort(s) == FoldLeft(LAMBDA acc, x : InsSorted(acc, x), <<>>, s)
-Sortable(p) == \A x \in Subtree(p) : Len(kids[x]) >= 2 => \A i \in 1..Len(kids[x]) : att[kids[x][i]]
+Sortable(p) == \A x \in Subtree(p) : Len(kids[x]) >= 2 => \A i \in 1..Len(kids[x]) : att[kids[x][i]] \/ Kind(kids[x][i]) = "cmp"
 
 (* ---------- actions ---------- *)
 Add(p, c, i) ==
@@ -89,8 +99,8 @@ Add(p, c, i) ==
     /\ parent' = [parent EXCEPT ![c] = p]
     /\ LET ks == Append(kids[p], c) IN
        /\ kids' = [kids EXCEPT ![p] = ks]
-       /\ loc' = IF Typed THEN Positions(p, ks) ELSE [loc EXCEPT ![c] = i]
-       /\ att' = IF Typed THEN [n \in Node |-> att[n] \/ n \in Rng(ks)] ELSE [att EXCEPT ![c] = TRUE]
+       /\ loc' = IF Places(p) THEN Positions(p, ks) ELSE IF Typed THEN loc ELSE [loc EXCEPT ![c] = i]
+       /\ att' = IF Places(p) THEN [n \in Node |-> att[n] \/ n \in Rng(ks)] ELSE IF Typed THEN att ELSE [att EXCEPT ![c] = TRUE]
     /\ UNCHANGED <<live, orig>> /\ Ok([n |-> "Add", p |-> p, c |-> c, i |-> i])
 
 AddPresent(p, c) ==
@@ -101,8 +111,8 @@ Insert(p, k, c, i) ==
     /\ p \in live /\ CanTake(p, c) /\ k \in 0..Len(kids[p])
     /\ parent' = [parent EXCEPT ![c] = p]
     /\ kids' = [kids EXCEPT ![p] = InsAt(kids[p], k, c)]
-    /\ loc' = [loc EXCEPT ![c] = IF Typed THEN k ELSE i]
-    /\ att' = [att EXCEPT ![c] = TRUE]
+    /\ loc' = IF Places(p) THEN [loc EXCEPT ![c] = k] ELSE IF Typed THEN loc ELSE [loc EXCEPT ![c] = i]
+    /\ att' = IF Typed /\ ~Places(p) THEN att ELSE [att EXCEPT ![c] = TRUE]
     /\ UNCHANGED <<live, orig>> /\ Ok([n |-> "Insert", p |-> p, k |-> k, c |-> c, i |-> i])
 
 InsertPresent(p, c) ==
@@ -121,6 +131,11 @@ RemoveAbsent(p, c) ==
     /\ p \in live /\ c \in live /\ c # p /\ c \notin Rng(kids[p])
     /\ Refuse("ValueError", [n |-> "RemoveAbsent", p |-> p, c |-> c])
 
+\* Assembly._checkPotentialChild: only blocks of the assembly's block type are accepted (TypeError), nothing changes
+AddWrongType(p, c) ==
+    /\ Typed /\ p \in live /\ Kind(p) = "asm" /\ Detached(c) /\ Kind(c) = "cmp"
+    /\ Refuse("TypeError", [n |-> "AddWrongType", p |-> p, c |-> c])
+
 RemoveAll(p) ==
     /\ p \in live /\ kids[p] # <<>>
     /\ parent' = [n \in Node |-> IF n \in Rng(kids[p]) THEN 0 ELSE parent[n]]
@@ -133,9 +148,10 @@ SetChildren(p, s) ==
     /\ p \in live
     /\ \A i \in 1..Len(s) : s[i] \in Rng(kids[p]) \/ CanTake(p, s[i])
     /\ parent' = [n \in Node |-> IF n \in Rng(s) THEN p ELSE IF n \in Rng(kids[p]) THEN 0 ELSE parent[n]]
-    /\ att' = [n \in Node |-> IF n \in Rng(kids[p]) THEN FALSE ELSE att[n]]
+    /\ att' = [n \in Node |-> IF Places(p) /\ n \in Rng(s) THEN TRUE ELSE IF n \in Rng(kids[p]) THEN FALSE ELSE att[n]]
     /\ kids' = [kids EXCEPT ![p] = s]
-    /\ UNCHANGED <<loc, live, orig>> /\ Ok([n |-> "SetChildren", p |-> p, s |-> s])
+    /\ loc' = IF Places(p) THEN Positions(p, s) ELSE loc
+    /\ UNCHANGED <<live, orig>> /\ Ok([n |-> "SetChildren", p |-> p, s |-> s])
 
 MoveTo(c, i) ==
     /\ ~Typed /\ c \in live /\ parent[c] # 0 /\ (loc[c] # i \/ ~att[c])
@@ -149,7 +165,7 @@ Sort(p) ==
 
 \* Assembly.reestablishBlockOrder: locators := positions
 Reestablish(p) ==
-    /\ Typed /\ p \in live /\ kids[p] # <<>>
+    /\ Places(p) /\ p \in live /\ kids[p] # <<>>
     /\ loc' = Positions(p, kids[p]) /\ att' = [n \in Node |-> att[n] \/ n \in Rng(kids[p])]
     /\ UNCHANGED <<parent, kids, live, orig>> /\ Ok([n |-> "Reestablish", p |-> p])
 
@@ -171,11 +187,14 @@ Copy(n, how) ==
           /\ kids' = [y \in Node |-> IF y \in new THEN [i \in 1..Len(kids[from(y)]) |-> to(kids[from(y)][i])] ELSE kids[y]]
           /\ loc' = [y \in Node |-> IF y \in new THEN loc[from(y)] ELSE loc[y]]
           \* __setstate__ re-associates every child's locator with its (copied) parent's grid; the root's is detached
-          /\ att' = [y \in Node |-> IF y \in new THEN from(y) # n ELSE att[y]]
+          /\ att' = [y \in Node |-> IF y \in new THEN (from(y) # n /\ HasGrid(parent[from(y)])) ELSE att[y]]
           /\ orig' = [y \in Node |-> IF y \in new THEN orig[from(y)] ELSE orig[y]]
           /\ Ok([n |-> how, x |-> n, ids |-> [i \in 1..Len(cm) |-> cm[i][2]]])
 
 SmallSeqs(S) == UNION {{s \in [1..k -> S] : \A i, j \in 1..k : i # j => s[i] # s[j]} : k \in 0..MaxSet}
+
+RemoveAbsentWhereItMatters(p, c) == (parent[c] # 0 \/ kids[p] # <<>>) /\ RemoveAbsent(p, c)
+SetChildrenAny(p) == \E s \in SmallSeqs(live) : SetChildren(p, s)
 
 Init ==
     /\ parent = [n \in Node |-> 0] /\ kids = [n \in Node |-> <<>>] /\ loc = [n \in Node |-> 0] /\ att = [n \in Node |-> FALSE]
@@ -184,10 +203,12 @@ Init ==
 
 Next ==
     \/ \E p, c \in Node : \E i \in (IF Typed THEN {0} ELSE LocIx) : Add(p, c, i)
-    \/ \E p, c \in Node : AddPresent(p, c) \/ InsertPresent(p, c) \/ RemoveChild(p, c) \/ RemoveAbsent(p, c)
+    \/ \E p, c \in Node : AddWrongType(p, c) \/ AddPresent(p, c) \/ InsertPresent(p, c) \/ RemoveChild(p, c)
+    \* refused removals: explored where they could matter (the object is owned elsewhere, or the receiver has children)
+    \/ \E p, c \in Node : RemoveAbsentWhereItMatters(p, c)
     \/ \E p, c \in Node : \E k \in 0..N : \E i \in (IF Typed THEN {0} ELSE LocIx) : Insert(p, k, c, i)
     \/ \E p \in Node : RemoveAll(p) \/ Sort(p) \/ Reestablish(p)
-    \/ \E p \in Node : \E s \in SmallSeqs(live) : SetChildren(p, s)
+    \/ \E p \in Node : SetChildrenAny(p)
     \/ \E c \in Node : \E i \in LocIx : MoveTo(c, i)
     \/ \E n \in Node : Copy(n, "DeepCopy") \/ Copy(n, "Pickle")
 
@@ -220,6 +241,8 @@ QueriesAt(n) == [
     ancOddDist |-> LET ch == AncSelf(n) idx == {i \in 1..Len(ch) : orig[ch[i]] % 2 = 1}
                    IN IF idx = {} THEN -1 ELSE Min(idx) - 1,
     root     |-> RootOf(n),
+    comps    |-> CompsOf(n),
+    compsA   |-> Filter(CompsOf(n), LAMBDA x : HasFlags(x, {"A"}, FALSE)),
     gridOwner |-> IF att[n] THEN parent[n] ELSE 0,
     contains |-> SetToSeqSorted({c \in live : c \in Rng(kids[n])})
 ]
